@@ -191,6 +191,26 @@ func buildC03(e *engine, p *rt.Package) {
 						}
 						t.Fatalf("%s — the Go server routed this request to %v (status %d), not to %s.%s", desc, saw, tr.lastRespInfo().status, svc.Name, m.Name)
 					}
+					// the Go server reads each URL-carried field from the place the Go client wrote it to
+					if len(calls) == 1 && tr.lastRespInfo().status == 200 {
+						seen := calls[0].Req.ProtoReflect()
+						var bound []protoreflect.FieldDescriptor
+						for _, fd := range info.PathFields {
+							if fd != nil {
+								bound = append(bound, fd)
+							}
+						}
+						for _, q := range info.Query {
+							if !q.Field.IsList() {
+								bound = append(bound, q.Field)
+							}
+						}
+						for _, fd := range bound {
+							if !seen.Get(fd).Equal(rm.Get(fd)) {
+								t.Fatalf("%s — the client placed %s=%v in the URL, the Go server's handler saw %v: the two do not agree on where the field travels", desc, fd.Name(), rm.Get(fd), seen.Get(fd))
+							}
+						}
+					}
 					// 2. TS client request line
 					tree, err := model.Encode(rm)
 					if err != nil {
